@@ -28,7 +28,36 @@ struct Inner {
     points: Vec<PointRec>,
     diverged: bool,
     stuck: bool,
-    fine: bool,
+    gran: Gran,
+}
+
+/// which hook tags are scheduling points
+#[derive(Clone, Copy, Debug, PartialEq, Eq, Default)]
+pub enum Gran {
+    /// build phases and .device/.include only
+    #[default]
+    Coarse,
+    /// every hook point
+    Fine,
+    /// build phases, .device/.include and the listed per-item tags
+    Tags(&'static [&'static str]),
+}
+
+impl Gran {
+    pub fn name(self) -> String {
+        match self {
+            Gran::Coarse => "coarse".into(),
+            Gran::Fine => "fine".into(),
+            Gran::Tags(t) => format!("coarse+{}", t.join("+")),
+        }
+    }
+    pub fn from_name(n: &str) -> Gran {
+        match n {
+            "coarse" => Gran::Coarse,
+            "coarse+pass0.item" => Gran::Tags(&["pass0.item"]),
+            _ => Gran::Fine,
+        }
+    }
 }
 
 static SCHED: Mutex<Option<Inner>> = Mutex::new(None);
@@ -38,8 +67,12 @@ thread_local! {
     static TID: Cell<Option<usize>> = Cell::new(None);
 }
 
-fn tag_selected(fine: bool, tag: &str) -> bool {
-    fine || tag.starts_with("build.") || tag.starts_with("directive.")
+fn tag_selected(gran: Gran, tag: &str) -> bool {
+    match gran {
+        Gran::Fine => true,
+        Gran::Coarse => tag.starts_with("build.") || tag.starts_with("directive."),
+        Gran::Tags(t) => tag.starts_with("build.") || tag.starts_with("directive.") || t.contains(&tag),
+    }
 }
 
 /// make the scheduling decision at a point; `me` = the thread at the point (None initially),
@@ -101,7 +134,7 @@ pub fn hook(tag: &'static str) {
             Some(i) if i.active => i,
             _ => return,
         };
-        if !tag_selected(inner.fine, tag) {
+        if !tag_selected(inner.gran, tag) {
             return;
         }
         decide(inner, Some(me), true, tag);
@@ -138,11 +171,11 @@ impl RunRec {
 
 /// Run `bodies` (one closure per thread) under the schedule given by `prefix` (then always the
 /// first enabled thread). Returns the per-thread results and the record of the run.
-pub fn run_schedule<T: Send + 'static>(bodies: Vec<Box<dyn FnOnce() -> T + Send>>, prefix: &[usize], fine: bool) -> (Vec<T>, RunRec) {
+pub fn run_schedule<T: Send + 'static>(bodies: Vec<Box<dyn FnOnce() -> T + Send>>, prefix: &[usize], gran: Gran) -> (Vec<T>, RunRec) {
     let n = bodies.len();
     {
         let mut g = SCHED.lock().unwrap();
-        *g = Some(Inner { active: true, running: None, finished: vec![false; n], arrived: 0, prefix: prefix.to_vec(), points: vec![], diverged: false, stuck: false, fine });
+        *g = Some(Inner { active: true, running: None, finished: vec![false; n], arrived: 0, prefix: prefix.to_vec(), points: vec![], diverged: false, stuck: false, gran });
     }
     let mut handles = vec![];
     for (id, body) in bodies.into_iter().enumerate() {
@@ -205,14 +238,14 @@ pub struct Explored {
 
 /// Explore all schedules of `make_bodies()` with at most `bound` preemptions. `check` is called
 /// with the per-thread results and the run record of every execution.
-pub fn explore<T: Send + 'static>(make_bodies: &dyn Fn() -> Vec<Box<dyn FnOnce() -> T + Send>>, bound: usize, fine: bool, check: &mut dyn FnMut(&[T], &RunRec)) -> Result<Explored, String> {
+pub fn explore<T: Send + 'static>(make_bodies: &dyn Fn() -> Vec<Box<dyn FnOnce() -> T + Send>>, bound: usize, gran: Gran, check: &mut dyn FnMut(&[T], &RunRec)) -> Result<Explored, String> {
     let mut stack: Vec<Vec<usize>> = vec![vec![]];
     let mut schedules = 0usize;
     let mut sigs = std::collections::BTreeSet::new();
     let mut max_points = 0usize;
     let mut by_pre = vec![0usize; bound + 1];
     while let Some(prefix) = stack.pop() {
-        let (res, rec) = run_schedule(make_bodies(), &prefix, fine);
+        let (res, rec) = run_schedule(make_bodies(), &prefix, gran);
         if rec.stuck {
             return Err("a thread did not reach its next scheduling point within 10 s while holding the baton (blocked outside the scheduler)".into());
         }
